@@ -131,6 +131,15 @@ def digest_structure_rules(cx, rep, rid):
                             hit = expr_mentions_this_field(a, {"refName", "name"}, aliases)
                             rep.ob(rid, "%s.hash256/no-names" % cname, hit is None,
                                    "%s.hash256 feeds this.%s to the digest writer: renaming a type would change hash256" % (cname, hit), mod.loc(n))
+                    # bookkeeping tables of the digest context (which references are being expanded) must be keyed
+                    # by the referenced validator itself: keyed by a name, the choice between expanding a reference
+                    # and writing a back-reference depends on how types are named and where aliases are cut
+                    ctxp = (fn_params(fn) or [None])[0]
+                    if mc and ctxp and mc[1] in ("get", "set", "has", "delete", "add") and s(mc[0]).startswith(ctxp + ".") and mc[2]:
+                        hit = expr_mentions_this_field(mc[2][0], {"refName", "name"}, aliases)
+                        rep.ob(rid, "%s.hash256/cycle-table-key" % cname, hit is None,
+                               "%s.hash256 keys %s by this.%s: cycle detection then follows type names instead of structure (alpha-equivalent recursive types get different digests, same-named types of different registries collide)" % (
+                                   cname, s(mc[0]), hit), mod.loc(n), sample={"table": s(mc[0]), "key": s(mc[2][0])})
             # key iteration order
             for n in walk(fn):
                 if n["type"] == "ForInStatement":
